@@ -173,7 +173,7 @@ def find_loops(body):
     return [(k, p) for (_, k, p) in loops]
 
 
-def inject_loop_contracts(body, contracts, nloops):
+def inject_loop_contracts(body, contracts, nloops, fname=''):
     """contracts: {ordinal (1-based): text}; nloops: number of loops the table expects."""
     loops = find_loops(body)
     if len(loops) != nloops:
@@ -189,7 +189,8 @@ def inject_loop_contracts(body, contracts, nloops):
             ctext = ctext.replace('@LOCALS@', ', '.join(loop_assigned_locals(body, kind, pos)) or 'verif_exc')
         # (the contract text names locals of the loop; when an edit renames or removes them the unit no longer compiles: the pipeline then
         #  re-compiles with -DVERIF_NO_LOOP_CONTRACTS and falls back to a bounded check of the enclosing contract, vf/pipeline.py)
-        body = body[:pos] + '\n#ifndef VERIF_NO_LOOP_CONTRACTS\n' + ctext + '\n#endif\n' + body[pos:]
+        guard = 'VERIF_NO_LOOP_CONTRACTS' + ('_' + fname if fname else '')
+        body = body[:pos] + '\n#if !defined(VERIF_NO_LOOP_CONTRACTS) && !defined(%s)\n' % guard + ctext + '\n#endif\n' + body[pos:]
         # cbmc 6.11 silently drops a loop contract attached to `for (;;)`; `while (1)` is the same loop
         head = re.search(r'for\s*\(\s*;\s*;\s*\)\s*$', body[:pos])
         if kind == 'for' and head:
